@@ -1387,6 +1387,18 @@ func TestVerifC15(t *testing.T) {
 		cfg := &configpb.LogConfig{LogId: 1, Prefix: "log", PrivateKey: e.keys[0].priv, ExtKeyUsages: ek}
 		e.opValidate(cfg, c15Meta{-1, 0})
 	}
+	// the EKU filter of the validated configuration and of the instance ("Any" first / middle / last / doubled): zz_verif_c15w4_test.go
+	e.ekuCases()
+	// the binary LogConfigSet whose single entry is 35 bytes long starts with 0a 23, i.e. "\n#": read as text it is an empty
+	// configuration (one comment line). Finding fixed in 8b0c42f; met by the thorough tier only before this fixed case
+	{
+		cfg := &configpb.LogConfig{LogId: 1, Prefix: "b", RootsPemFile: []string{"../testdata/fake-ca.cert"}, LogBackendName: "a-"}
+		if proto.Size(cfg) != 35 {
+			out.Fail("harness: 35-byte entry", fmt.Sprintf("the fixed entry is %d bytes long", proto.Size(cfg)))
+		}
+		e.opValidate(cfg, c15Meta{-1, -1})
+		out.Count("class:binary-entry-of-35-bytes")
+	}
 	mk := func(prefix string, id int64, be string) *configpb.LogConfig {
 		return &configpb.LogConfig{LogId: id, Prefix: prefix, PrivateKey: e.keys[0].priv, LogBackendName: be}
 	}
